@@ -92,4 +92,44 @@ theorem decode_affine {s eff x tl gos e : R} (hs : 0 < s) (he : 0 < eff)
   rw [e1, abs_div, abs_of_pos hse]
   exact div_le_div_of_nonneg_right h (le_of_lt hse)
 
+/-- **centroid_roundtrip**: the centroid stage (no refinement) returns the centroid, in size-matched
+image coordinates, within half a centroid cell: `|cell·os_c/s_c − cen·eff| ≤ os_c/2/s_c`. -/
+theorem centroid_roundtrip (c : TopDownCfg) (eff x : R) (n : Nat)
+    (hs : 0 < c.sc.toR (Nat.cast : Nat → R))
+    (h0 : 0 ≤ x * (eff * c.sc.toR Nat.cast))
+    (h1 : x * (eff * c.sc.toR Nat.cast) ≤ (((n - 1) * c.osC : Nat) : R) + (c.osC : R) / 2) :
+    |centroidCoord Nat.cast c eff n x 0 - x * eff| ≤ (c.osC : R) / 2 / c.sc.toR Nat.cast := by
+  have hh := nearest_half c.osC (x * (eff * c.sc.toR (Nat.cast : Nat → R))) (n - 1) h0 h1
+  have := decode_affine (s := c.sc.toR (Nat.cast : Nat → R)) (eff := (1 : R)) (x := x * eff) (tl := (0 : R))
+    hs one_pos (gos := ((nearest Nat.cast c.osC (x * (eff * c.sc.toR Nat.cast)) (n - 1) * c.osC : Nat) : R))
+    (e := (c.osC : R) / 2) (by simpa [mul_assoc] using hh)
+  simpa [centroidCoord] using this
+
+/-- **crop_contains** (one axis): if the centroid estimate `ĉ` is within `e` of the true centroid `cn`
+and the keypoint keeps the margins that `robustAxis` tests, the keypoint lies in the grid range of the
+crop cut around `ĉ` — the range hypotheses of `topdown_roundtrip` for the crop actually taken. -/
+theorem crop_contains (c : TopDownCfg) (size : Nat) (chat cn e p qmax : R)
+    (hsi : 0 ≤ c.si.toR (Nat.cast : Nat → R)) (hc : |chat - cn| ≤ e)
+    (hlo : 0 ≤ p - ((cn + e) * c.si.toR Nat.cast - ((size : R) / 2 - 1 / 2)))
+    (hhi : p - ((cn - e) * c.si.toR Nat.cast - ((size : R) / 2 - 1 / 2)) ≤ qmax) :
+    0 ≤ p - cropTL Nat.cast c size chat ∧ p - cropTL Nat.cast c size chat ≤ qmax := by
+  have h1 := (abs_le.mp hc).1
+  have h2 := (abs_le.mp hc).2
+  have ha : chat * c.si.toR Nat.cast ≤ (cn + e) * c.si.toR Nat.cast :=
+    mul_le_mul_of_nonneg_right (by linarith) hsi
+  have hb : (cn - e) * c.si.toR Nat.cast ≤ chat * c.si.toR Nat.cast :=
+    mul_le_mul_of_nonneg_right (by linarith) hsi
+  simp only [cropTL, Nat.cast_ofNat, Nat.cast_one]
+  constructor <;> linarith
+
+/-- what `robustAxis = true` means -/
+theorem robustAxis_spec (c : TopDownCfg) (size n : Nat) (eff e cn x : R)
+    (h : robustAxis Nat.cast c size n eff e cn x = true) :
+    0 ≤ x * (eff * c.si.toR Nat.cast) - ((cn + e) * c.si.toR Nat.cast - ((size : R) / 2 - 1 / 2)) ∧
+    x * (eff * c.si.toR Nat.cast) - ((cn - e) * c.si.toR Nat.cast - ((size : R) / 2 - 1 / 2))
+      ≤ (((n - 1) * c.osI : Nat) : R) + (c.osI : R) / 2 := by
+  simp only [robustAxis, Bool.and_eq_true, Bool.not_eq_true', decide_eq_false_iff_not, not_lt, sub_self,
+    Nat.cast_ofNat, Nat.cast_one] at h
+  exact h
+
 end SleapVerif.Decode
